@@ -551,11 +551,11 @@ def check_bsearch(ctx, prog, exp):
         # closure env: captures c (by reference); argument: &(char, char)
         env_ty = cb["mir"]["locals"][1]
         cref = ("ref", ("sym", "c"), ())
-        st.cells[(("sym", "c"), ())] = ("symchar", "c")
-        st.cells[(("sym", "pair"), ())] = ("tuple", (("symchar", "s"), ("symchar", "e")))
+        st.set_cell(("sym", "c"), (), ("symchar", "c"))
+        st.set_cell(("sym", "pair"), (), ("tuple", (("symchar", "s"), ("symchar", "e"))))
         closure_val = ("closure", cb["path"], (cref,))
         if env_ty.startswith("&"):
-            st.cells[(("sym", "env"), ())] = closure_val
+            st.set_cell(("sym", "env"), (), closure_val)
             eng.write(st, 1, (), ("ref", ("sym", "env"), ()), quiet=True)
         else:
             eng.write(st, 1, (), closure_val, quiet=True)
